@@ -132,11 +132,13 @@ void trace_tensor() {
     verif::outputs("r", r, T);
   }
   {
-    // implicit conversion stensor -> tensor (constructor / assignment)
-    Unit u(d + "from_stensor");
+    // mixed tensor/stensor arithmetic goes through TensorViewFromStensor
+    Unit u(d + "add_stensor");
+    tensor<N, Sym> a;
     stensor<N, Sym> s;
+    verif::fill_inputs(a, "a", T);
     verif::fill_inputs(s, "s", S);
-    const tensor<N, Sym> r(s);
+    const tensor<N, Sym> r = a + s;
     verif::outputs("r", r, T);
   }
   {
